@@ -1,14 +1,23 @@
 (* C12 -- Sensing counts exactly the points inside each box; every object classified once.
-   Models: Model/Winding.v (crop_pointcloud, box corners), Model/Sensing.v (frame evaluation).
-   Only statements, `exact <lemma>`, Print Assumptions and non-vacuity examples. *)
+   Models: Model/Winding.v (crop_pointcloud, box corners, get_bbox_scale), Model/Sensing.v
+   (DynamicObjectWithSensingResult, SensingFrameResult.evaluate_frame, manager.crop_pointcloud).
+   Only statements, `exact <lemma>`, Print Assumptions and non-vacuity examples.
+
+   Conventions: a cloud row is [mkPoint x y rest] ([rest] = z, intensity, ... or [] for a 2-column
+   cloud); a box is position, size (w, l, h) and the xy block of its rotation matrix, [yaw_box] is the
+   yaw-only box with direction (c, s) (ANY non-zero rational vector, not only unit ones); the box
+   frame coordinates of a row are [local_u], [local_v]. *)
 From Coq Require Import List Bool ZArith Arith Permutation.
 From PE Require Import Base.QUtil Model.Winding Model.Sensing Proofs.WindingProofs Proofs.SensingProofs.
 Import ListNotations.
 Open Scope Q_scope.
 
-(* the division-based edge test of crop_pointcloud is the sign of a cross product:
-   for an upward edge a->b the point is "valid" iff it lies strictly left of a->b, for a downward
-   edge iff it lies strictly right of it (c is the raw next row read by the horizontal-edge test) *)
+(* ------------------------------------------------------------------------------------------ *)
+(* the edge test                                                                               *)
+(* ------------------------------------------------------------------------------------------ *)
+(* the division-based test `x < ax + (y-ay)/(by-ay)*(bx-ax)` of crop_pointcloud is the sign of a
+   cross product: for an upward edge a->b the row is "valid" iff it lies strictly left of a->b, for
+   a downward edge iff it lies strictly right (c is the raw next row read by the horizontal test) *)
 Theorem C12_edge_valid_iff_cross : forall (a b c : vertex) (p : point),
   vy c == vy b ->
   (vy a < vy b -> (edge_valid a b c p = true <->
@@ -18,8 +27,265 @@ Theorem C12_edge_valid_iff_cross : forall (a b c : vertex) (p : point),
 Proof. exact edge_valid_iff_cross. Qed.
 Print Assumptions C12_edge_valid_iff_cross.
 
-(* the uint8 accumulator holds the sum of the per-edge contributions modulo 256 *)
+(* the uint8 accumulator holds the sum of the per-edge contributions (+1 / -1 / 0) modulo 256;
+   `0 < cnt` therefore means "winding number not a multiple of 256", which is why clockwise
+   polygons (winding number -1 = 255) are handled like counter-clockwise ones *)
 Theorem C12_counter_is_sum_mod_256 : forall (area : list vertex) (p : point),
   wn area p = (contrib_sum p (edges area) mod 256)%Z /\ (0 <= wn area p < 256)%Z.
 Proof. intros area p. split; [apply wn_edges_sum|apply wn_range]. Qed.
 Print Assumptions C12_counter_is_sum_mod_256.
+
+(* ------------------------------------------------------------------------------------------ *)
+(* inside / outside partition: any polygon, any vertex heights, 2, 3 or more columns           *)
+(* ------------------------------------------------------------------------------------------ *)
+Theorem C12_inside_outside_partition : forall (area : list vertex) (cloud : list point),
+  (* per row: selected by exactly one of inside=True / inside=False *)
+  (forall p, selected area true p = negb (selected area false p)) /\
+  (* the two returned arrays together are the input rows (all columns kept) *)
+  Permutation cloud (filter (selected area true) cloud ++ filter (selected area false) cloud) /\
+  (length (crop_idx area true cloud) + length (crop_idx area false cloud) = length cloud)%nat /\
+  (forall i, (i < length cloud)%nat ->
+     (In i (crop_idx area true cloud) /\ ~ In i (crop_idx area false cloud)) \/
+     (~ In i (crop_idx area true cloud) /\ In i (crop_idx area false cloud))) /\
+  (* the index lists name the returned rows, in input order *)
+  (forall inside, map (nth_error cloud) (crop_idx area inside cloud) =
+                  map Some (filter (selected area inside) cloud)) /\
+  (* with the RuntimeError cases: they do not depend on [inside] *)
+  (forall ncols ins, crop_pointcloud ncols cloud area true = Some ins ->
+     exists outs, crop_pointcloud ncols cloud area false = Some outs /\ Permutation cloud (ins ++ outs)).
+Proof.
+  intros area cloud. split; [intros p; apply selected_partition|].
+  destruct (crop_partition area cloud) as (P & L & I).
+  split; [exact P|]. split; [exact L|]. split; [exact I|].
+  split; [intros inside; apply idx_filter_rows|].
+  intros ncols ins. apply crop_pointcloud_partition.
+Qed.
+Print Assumptions C12_inside_outside_partition.
+
+(* ------------------------------------------------------------------------------------------ *)
+(* the rectangle: winding-number selection = slab inequalities in the box frame                *)
+(* ------------------------------------------------------------------------------------------ *)
+(* yaw-only box with centre (x, y, z), size (w, l, h), direction (c, s) <> (0, 0) -- all four sign
+   quadrants and the four axis-aligned directions --, footprint scale k > 0.  A row whose box-frame
+   coordinates (u, v) are strictly inside the scaled footprint and whose z (if the cloud has one)
+   is within [z - h/2, z + h/2] is selected; a row strictly outside the footprint or the z range is
+   not.  (Rows exactly on the footprint boundary: half-open rule, not specified.) *)
+Theorem C12_rect_inside_iff_slabs : forall (x y z w l h c s k : Q) (p : point),
+  0 < w -> 0 < l -> 0 <= h -> 0 < k -> ~ (c == 0 /\ s == 0) ->
+  let b := yaw_box x y z w l h c s in
+  let u := (c * (px p - x) + s * (py p - y)) / (c * c + s * s) in
+  let v := (- s * (px p - x) + c * (py p - y)) / (c * c + s * s) in
+  let z_inside := match prest p with [] => True | pz :: _ => z - h / 2 <= pz /\ pz <= z + h / 2 end in
+  let z_outside := match prest p with [] => False | pz :: _ => pz < z - h / 2 \/ z + h / 2 < pz end in
+  (qabs u < k * (l / 2) /\ qabs v < k * (w / 2) /\ z_inside ->
+     box_selected b k true p = true /\ box_selected b k false p = false) /\
+  (k * (l / 2) < qabs u \/ k * (w / 2) < qabs v \/ z_outside ->
+     box_selected b k true p = false /\ box_selected b k false p = true).
+Proof.
+  intros x y z w l h c s k p Hw Hl Hh Hk Hcs.
+  destruct (local_uv_correct x y c s p Hcs) as [PX PY].
+  destruct (rect_inside_iff_slabs x y z w l h c s k _ _ p Hw Hl Hh Hk Hcs PX PY) as [I O].
+  destruct (rect_outside_iff_slabs x y z w l h c s k _ _ p Hw Hl Hh Hk Hcs PX PY) as [I' O'].
+  split; intros H; split; auto.
+Qed.
+Print Assumptions C12_rect_inside_iff_slabs.
+
+(* the same for the row built from box-frame coordinates (u, v): x = c u - s v + cx, y = s u + c v + cy *)
+Theorem C12_rect_local_point : forall (x y z w l h c s k u v : Q) (rest : list Q),
+  0 < w -> 0 < l -> 0 <= h -> 0 < k -> ~ (c == 0 /\ s == 0) ->
+  let b := yaw_box x y z w l h c s in
+  let p := local_point x y c s u v rest in
+  (qabs u < k * (l / 2) /\ qabs v < k * (w / 2) /\ z_in z h rest -> box_selected b k true p = true) /\
+  (k * (l / 2) < qabs u \/ k * (w / 2) < qabs v \/ z_out z h rest -> box_selected b k true p = false).
+Proof.
+  intros x y z w l h c s k u v rest Hw Hl Hh Hk Hcs.
+  apply (rect_inside_iff_slabs x y z w l h c s k u v (local_point x y c s u v rest) Hw Hl Hh Hk Hcs);
+    reflexivity.
+Qed.
+Print Assumptions C12_rect_local_point.
+
+(* cloud level: without rows on the box boundary the returned arrays are exactly the rows
+   geometrically inside / outside, hence get_inside_pointcloud_num counts exactly those *)
+Theorem C12_box_crop_exact : forall (q : yaw_params) (k : Q) (cloud : list point),
+  yaw_ok q -> 0 < k ->
+  (forall p, In p cloud -> slab_in q k p \/ slab_out q k p) ->
+  (forall p, In p (box_crop (box_of q) k true cloud) <-> In p cloud /\ slab_in q k p) /\
+  (forall p, In p (box_crop (box_of q) k false cloud) <-> In p cloud /\ slab_out q k p) /\
+  inside_num (box_of q) k cloud = length (box_crop (box_of q) k true cloud) /\
+  (point_exist (box_of q) k cloud = true <-> exists p, In p cloud /\ slab_in q k p).
+Proof.
+  intros q k cloud Hq Hk Hb. destruct (box_crop_exact q k cloud Hq Hk Hb) as [I O].
+  split; [exact I|]. split; [exact O|]. split; [reflexivity|].
+  unfold point_exist, inside_num. rewrite Nat.ltb_lt. split.
+  - intros H. destruct (box_crop (box_of q) k true cloud) as [|p t] eqn:E; [cbn in H; inversion H|].
+    exists p. apply I. rewrite ?E. left. reflexivity.
+  - intros [p Hp]. apply I in Hp. destruct (box_crop (box_of q) k true cloud); [destruct Hp|cbn; apply Nat.lt_0_succ].
+Qed.
+Print Assumptions C12_box_crop_exact.
+
+(* ------------------------------------------------------------------------------------------ *)
+(* enlarging the scale never removes an inside row (ALL rows, boundary rows included)          *)
+(* ------------------------------------------------------------------------------------------ *)
+Theorem C12_scale_monotone : forall (x y z w l h c s k k' : Q) (cloud : list point),
+  0 < w -> 0 < l -> 0 <= h -> 0 < k -> k <= k' -> ~ (c == 0 /\ s == 0) ->
+  let b := yaw_box x y z w l h c s in
+  (forall p, box_selected b k true p = true -> box_selected b k' true p = true) /\
+  (forall i, In i (box_crop_idx b k true cloud) -> In i (box_crop_idx b k' true cloud)) /\
+  incl (box_crop b k true cloud) (box_crop b k' true cloud) /\
+  (inside_num b k cloud <= inside_num b k' cloud)%nat.
+Proof.
+  intros x y z w l h c s k k' cloud Hw Hl Hh Hk Hkk Hcs b.
+  split; [intros p; apply scale_monotone; assumption|].
+  apply scale_monotone_cloud; assumption.
+Qed.
+Print Assumptions C12_scale_monotone.
+
+(* the distance-dependent factor: linear between the two configured scales, hence monotone in the
+   distance when box_scale_100m >= box_scale_0m *)
+Theorem C12_bbox_scale_linear : forall d d' s0 s100 : Q,
+  bbox_scale 0 s0 s100 == s0 /\ bbox_scale 100 s0 s100 == s100 /\
+  (s0 <= s100 -> d <= d' -> bbox_scale d s0 s100 <= bbox_scale d' s0 s100).
+Proof.
+  intros d d' s0 s100. unfold bbox_scale. split; [ring|]. split; [ring|].
+  intros H1 H2. nra.
+Qed.
+Print Assumptions C12_bbox_scale_linear.
+
+(* ------------------------------------------------------------------------------------------ *)
+(* every ground truth is classified exactly once                                               *)
+(* ------------------------------------------------------------------------------------------ *)
+Theorem C12_object_trichotomy : forall (cfg : sensing_config) (gts : list gt_object)
+                                       (cloud : list point) (pcs : list (list point)),
+  let fr := evaluate_frame cfg gts cloud pcs in
+  let ids := map r_obj (fr_success fr) ++ map r_obj (fr_fail fr) ++ map r_obj (fr_warning fr) in
+  (* every index 0 .. |GT|-1 occurs exactly once over the three lists *)
+  Permutation (seq 0 (length gts)) ids /\ NoDup ids /\
+  (length (fr_success fr) + length (fr_fail fr) + length (fr_warning fr) = length gts)%nat.
+Proof.
+  intros cfg gts cloud pcs. unfold evaluate_frame.
+  pose proof (object_trichotomy cfg cloud gts) as H.
+  destruct (eval_detection cfg cloud (indexed gts)) as [[su fa] wa]. cbn.
+  destruct H as (P & L & N). auto.
+Qed.
+Print Assumptions C12_object_trichotomy.
+
+(* which list: warning iff annotated Visibility.NONE (tested first, whatever the count); otherwise
+   success iff inside_pointcloud_num >= min_points_threshold, else fail; and the count is the
+   number of rows of the inside crop at the object's distance-dependent scale *)
+Theorem C12_detection_lists_spec : forall (cfg : sensing_config) (gts : list gt_object)
+                                          (cloud : list point) (pcs : list (list point))
+                                          (r : sensing_result),
+  let fr := evaluate_frame cfg gts cloud pcs in
+  let from_gt := exists i g, nth_error gts i = Some g /\ r = sensing_result_of cfg cloud (i, g) in
+  (In r (fr_warning fr) <-> from_gt /\ r_occluded r = true) /\
+  (In r (fr_success fr) <-> from_gt /\ r_occluded r = false /\ r_detected r = true) /\
+  (In r (fr_fail fr) <-> from_gt /\ r_occluded r = false /\ r_detected r = false) /\
+  (forall i g, r = sensing_result_of cfg cloud (i, g) ->
+     r_obj r = i /\
+     r_inside r = box_crop_idx (g_box g) (bbox_scale (g_dist g) (c_s0 cfg) (c_s100 cfg)) true cloud /\
+     r_num r = length (r_inside r) /\
+     (r_detected r = true <-> (c_min_points cfg <= Z.of_nat (r_num r))%Z) /\
+     (r_occluded r = true <-> g_vis g = Some V_NONE)).
+Proof.
+  intros cfg gts cloud pcs r. unfold evaluate_frame.
+  pose proof (detection_lists_spec cfg cloud gts r) as H.
+  destruct (eval_detection cfg cloud (indexed gts)) as [[su fa] wa]. cbn.
+  destruct H as (A & B & C). split; [exact A|]. split; [exact B|]. split; [exact C|].
+  intros i g ->. apply sensing_result_spec.
+Qed.
+Print Assumptions C12_detection_lists_spec.
+
+(* the rows counted for a yaw-only ground truth are exactly the rows geometrically inside *)
+Theorem C12_detection_rows_exact : forall (cfg : sensing_config) (cloud : list point) (i : nat) (t : yaw_gt),
+  yaw_ok (fst (fst t)) -> 0 < scale_at cfg t ->
+  (forall p, In p cloud -> slab_in (fst (fst t)) (scale_at cfg t) p \/ slab_out (fst (fst t)) (scale_at cfg t) p) ->
+  forall j, In j (r_inside (sensing_result_of cfg cloud (i, gt_of t))) <->
+            exists p, nth_error cloud j = Some p /\ slab_in (fst (fst t)) (scale_at cfg t) p.
+Proof. exact detection_rows_exact. Qed.
+Print Assumptions C12_detection_rows_exact.
+
+(* ------------------------------------------------------------------------------------------ *)
+(* non-detection                                                                               *)
+(* ------------------------------------------------------------------------------------------ *)
+(* a row is reported in pointcloud_failed_non_detection iff it is a row of one of the given clouds and
+   in the inside selection of no ground-truth box (scaled at that box's distance); each reported
+   array is a non-empty, order-preserving sub-array; the crop is idempotent (the manager crops,
+   evaluate_frame crops again); the manager's arrays are "inside the area and inside no box" *)
+Theorem C12_non_detection_spec : forall (cfg : sensing_config) (gts : list gt_object)
+                                        (cloud : list point) (pcs : list (list point)),
+  let fr := evaluate_frame cfg gts cloud pcs in
+  let in_no_box p := forall g, In g gts -> box_selected (g_box g) (scale_of cfg g) true p = false in
+  (forall p, In p (concat (fr_nondet fr)) <-> exists pc, In pc pcs /\ In p pc /\ in_no_box p) /\
+  fr_nondet fr = filter (fun pc => match pc with [] => false | _ => true end)
+                        (map (filter (outside_all (fun p => p) cfg gts)) pcs) /\
+  (forall p, outside_all (fun p => p) cfg gts p = true <-> in_no_box p) /\
+  (forall pc, crop_outside_boxes (fun p => p) cfg gts (crop_outside_boxes (fun p => p) cfg gts pc) =
+              crop_outside_boxes (fun p => p) cfg gts pc) /\
+  (forall areas, manager_crop (fun p => p) cfg gts cloud areas =
+     map (fun area => filter (fun p => selected area true p && outside_all (fun p => p) cfg gts p) cloud) areas).
+Proof.
+  intros cfg gts cloud pcs. unfold evaluate_frame.
+  destruct (eval_detection cfg cloud (indexed gts)) as [[su fa] wa]. cbn.
+  split; [intros p; apply (non_detection_spec (fun p => p))|].
+  split; [apply non_detection_shape|].
+  split; [intros p; apply (outside_all_spec (fun p => p))|].
+  split; [intros pc; apply crop_outside_idempotent|].
+  intros areas. apply manager_crop_spec.
+Qed.
+Print Assumptions C12_non_detection_spec.
+
+(* in geometric terms, for yaw-only ground truths and a row that is on no box boundary *)
+Theorem C12_non_detection_slabs : forall (cfg : sensing_config) (ts : list yaw_gt)
+                                         (pcs : list (list point)) (p : point),
+  (forall t, In t ts -> yaw_ok (fst (fst t)) /\ 0 < scale_at cfg t /\
+                        (slab_in (fst (fst t)) (scale_at cfg t) p \/ slab_out (fst (fst t)) (scale_at cfg t) p)) ->
+  (In p (concat (eval_non_detection (fun q => q) cfg (map gt_of ts) pcs)) <->
+   (exists pc, In pc pcs /\ In p pc) /\ forall t, In t ts -> slab_out (fst (fst t)) (scale_at cfg t) p).
+Proof. exact non_detection_slabs. Qed.
+Print Assumptions C12_non_detection_slabs.
+
+(* ------------------------------------------------------------------------------------------ *)
+(* non-vacuity: concrete inputs satisfying the hypotheses and exercising the interesting branch *)
+(* ------------------------------------------------------------------------------------------ *)
+Definition ex_box : box := yaw_box 3 4 0 2 4 (3 # 2) (3 # 5) (4 # 5).      (* the box of the harness smoke test *)
+Definition ex_cloud : list point :=
+  [mkPoint 3 4 [0; 7]; mkPoint 3 4 [2; 8]; mkPoint 10 10 [0; 9]; mkPoint (7 # 2) 6 [(3 # 4); 1]].
+
+Example C12_nonvacuous_rect :
+  0 < 2 /\ 0 < 4 /\ 0 <= (3 # 2) /\ 0 < 1 /\ ~ ((3 # 5) == 0 /\ (4 # 5) == 0) /\
+  box_crop_idx ex_box 1 true ex_cloud = [0; 3]%nat /\ box_crop_idx ex_box 1 false ex_cloud = [1; 2]%nat /\
+  inside_num ex_box 1 ex_cloud = 2%nat /\ inside_num ex_box (1 # 2) ex_cloud = 1%nat.
+Proof. repeat split; try lra; try (intros [H _]; lra); vm_compute; reflexivity. Qed.
+
+(* all four quadrants and an axis-aligned direction select the centre and reject a far row *)
+Example C12_nonvacuous_quadrants :
+  forallb (fun cs => box_selected (yaw_box 1 2 0 2 4 1 (fst cs) (snd cs)) (5 # 4) true (mkPoint (3 # 2) (5 # 2) [0]) &&
+                     negb (box_selected (yaw_box 1 2 0 2 4 1 (fst cs) (snd cs)) (5 # 4) true (mkPoint 9 2 [0])))
+          [(3 # 5, 4 # 5); (-3 # 5, 4 # 5); (-3 # 5, -4 # 5); (3 # 5, -4 # 5); (1, 0); (0, 1); (-1, 0); (0, -1); (2, 1)] = true.
+Proof. vm_compute. reflexivity. Qed.
+
+(* a clockwise ring: the counter wraps to 255 and the row is still inside *)
+Definition ex_cw : list vertex :=
+  [(0, 0, 0); (0, 2, 0); (2, 2, 0); (2, 0, 0); (0, 0, 1); (0, 2, 1); (2, 2, 1); (2, 0, 1)].
+Example C12_nonvacuous_clockwise :
+  wn ex_cw (mkPoint 1 1 [(1 # 2)]) = 255%Z /\
+  crop_pointcloud 3 [mkPoint 1 1 [(1 # 2)]; mkPoint 3 3 [(1 # 2)]; mkPoint 1 1 [2]] ex_cw true = Some [mkPoint 1 1 [(1 # 2)]] /\
+  crop_pointcloud 3 [mkPoint 1 1 [(1 # 2)]; mkPoint 3 3 [(1 # 2)]; mkPoint 1 1 [2]] ex_cw false =
+    Some [mkPoint 3 3 [(1 # 2)]; mkPoint 1 1 [2]] /\
+  crop_pointcloud 1 [] ex_cw true = None /\ crop_pointcloud 3 [] (firstn 4 ex_cw) true = None.
+Proof. vm_compute. repeat split; reflexivity. Qed.
+
+(* a frame with one object in each class, an empty and a non-empty non-detection remainder *)
+Definition ex_cfg : sensing_config := mkCfg 1 2 2.
+Definition ex_gts : list gt_object :=
+  [mkGT ex_box 5 (Some V_FULL);                                   (* 2 rows at scale 1.05 >= 2: success *)
+   mkGT (yaw_box (-6) 8 0 2 2 2 0 1) 10 (Some V_PARTIAL);         (* 1 row < 2: fail *)
+   mkGT (yaw_box 0 (-5) 0 2 2 2 1 0) 5 (Some V_NONE)].            (* occluded: warning although 2 rows *)
+Definition ex_det_cloud : list point :=
+  ex_cloud ++ [mkPoint (-6) 8 [0; 0]; mkPoint 0 (-5) [0; 0]; mkPoint (1 # 2) (-5) [0; 0]].
+Example C12_nonvacuous_frame :
+  let fr := evaluate_frame ex_cfg ex_gts ex_det_cloud [[mkPoint 3 4 [0; 7]]; [mkPoint 3 4 [0; 7]; mkPoint 20 20 [0; 0]]] in
+  map r_obj (fr_success fr) = [0]%nat /\ map r_obj (fr_fail fr) = [1]%nat /\ map r_obj (fr_warning fr) = [2]%nat /\
+  map r_num (fr_success fr ++ fr_fail fr ++ fr_warning fr) = [2; 1; 2]%nat /\
+  fr_nondet fr = [[mkPoint 20 20 [0; 0]]].
+Proof. vm_compute. repeat split; reflexivity. Qed.
